@@ -1020,6 +1020,49 @@ def multi_line_messages(col, tracer, width):
                                   % (shape, cls.__name__, text, msg[-(len(want_tail or '') + 40):], want_tail), {'message': msg})
 
 
+def errors_of_classes_seen_in_another_shape_before(col, tracer, width):
+    """every error message carries the trace - also the message of an error whose class has the same NAME as the class of an earlier
+    error with another constructor, or whose class was met before with an instance that could not be re-created"""
+    def named(init):
+        return type('ParseError', (Exception,), {'__init__': init})
+    ParseA = named(lambda self, msg, pos: Exception.__init__(self, msg, pos))
+    ParseB = named(lambda self, text: Exception.__init__(self, text))
+
+    class NeedTwo(Exception):
+        def __init__(self, a, b):
+            Exception.__init__(self, a, b)
+
+    def altered():
+        e = NeedTwo(1, 2)
+        e.args = ()
+        return e
+    seq = [('ParseError(msg, pos)', lambda: ParseA('bad token', 7), True), ("another ParseError(text)", lambda: ParseB("cannot parse 'a;b'"), True),
+           ('the first ParseError again', lambda: ParseA('bad token', 8), True), ('NeedTwo whose args were emptied', altered, False), ('NeedTwo(3, 4) afterwards', lambda: NeedTwo(3, 4), True)]
+    target = {'k': 1, 'a': {'b': [1, 2]}}
+    for desc, mk, want_trace in seq:
+        e = mk()
+
+        def raiser(t, e=e):
+            raise e
+        for shape, spec in (('chain', ('a', 'b', raiser)), ('in a Coalesce branch', Coalesce('zz', ('a', raiser)))):
+            tracer.reset()
+            got = call(G, target, spec)
+            col.count('evaluations')
+            col.case(('class-seen-before', desc, shape, width), True)
+            col.count('error_messages_checked')
+            if got.ok:
+                col.violation('C05/no-glom-error-for-a-raising-callable', '%s (%s): %r' % (desc, shape, got), None)
+                continue
+            if not want_trace:
+                continue        # (an error that cannot be re-created leaves glom() as it is: C04)
+            msg = str(got.exc)
+            header_ok, tokens, _ = parse_trace(msg)
+            if not header_ok or not tokens or not matches(tokens[0].text, target):
+                col.violation('C05/header-missing', '%s (%s): the message of the error is %r - no target-spec trace' % (desc, shape, msg[:200]), {'message': msg})
+            elif msg.rstrip('\n').split('\n')[-1] != exc_line(e):
+                col.violation('C05/last-line-is-not-the-original-error', '%s (%s): last line %r, original error %r' % (desc, shape, msg.rstrip().split('\n')[-1], exc_line(e)), {'message': msg})
+
+
 def lazy_steps_before_the_failure(col, tracer, width):
     """an earlier step of the chain made a lazy value (an Iter pipeline) that a LATER step consumes - the value spec of a binder, a
     callable, a reduction - and a step after that fails: the trace follows the chain to the step that really failed (the item
@@ -1113,6 +1156,7 @@ def child_main(width, seed, shard, nshards, tier):
         equal_values_of_different_types(col, tracer, width)
         long_values_are_rendered_from_their_whole_repr(col, tracer, width)
         multi_line_messages(col, tracer, width)
+        errors_of_classes_seen_in_another_shape_before(col, tracer, width)
         lazy_steps_before_the_failure(col, tracer, width)
         cyclic_targets(col, tracer, width)
         n = 400 if tier == 'quick' else 2500
